@@ -506,7 +506,9 @@ class Engine:
             ob.discharged += 1
             if not ob.witnessed:
                 # vacuity twin: the hypotheses together with the clause must be satisfiable
+                self.solver.set('timeout', 2000)
                 rr = self._check_sat(t)
+                self.solver.set('timeout', self.timeout_ms)
                 if rr == z3.sat:
                     ob.witnessed = True
                     if ob.sample is None:
